@@ -29,8 +29,8 @@ Forced ==
 
 (* subscriptions that are mostly accepted, all kinds about equally often *)
 SimSubscribe ==
-  \E s \in Subs, c \in R(Conns), i \in R(1..8), j \in R(1..10), flt \in R(BOOLEAN), a \in R(BOOLEAN), b \in R(BOOLEAN), d \in R(BOOLEAN), tx \in R(1..MaxTx) :
-     LET k0 == CASE i \in {1, 2, 3} -> "heads" [] i \in {4, 5, 6} -> "events" [] i = 7 -> "status" [] OTHER -> "txs"
+  \E s \in Subs, c \in R(Conns), i \in R(1..8), j \in R(1..10), flt \in R(BOOLEAN), a \in R(BOOLEAN), b \in R(BOOLEAN), d \in R(BOOLEAN), tx \in R(1..(IF nTx + 1 < MaxTx THEN nTx + 1 ELSE MaxTx)) :
+     LET k0 == CASE i \in {1, 2} -> "heads" [] i \in {3, 4, 5} -> "events" [] i \in {6, 7} -> "status" [] OTHER -> "txs"
          kind == IF k0 \in Kinds THEN k0 ELSE "heads"
          bid == CASE j <= 3 -> [k |-> "latest", n |-> 0]
                   [] j \in {4, 5, 6} -> [k |-> "num", n |-> RandomElement(0..Height)]
@@ -56,7 +56,7 @@ External ==
   \/ \E s \in Subs : Deliver(s)
   \/ \E s \in Subs : Deliver(s)
   \/ Tick
-  \/ TickTimeout
+  \/ nTick >= 2 /\ TickTimeout
   \/ \E c \in R(Conns), s \in R(Subs) : UnsubCall(c, s)
   \/ \E c \in R(Conns) : steps > 55 /\ CloseConn(c)
   \/ SimSubscribe \/ SimSubscribe
